@@ -79,13 +79,34 @@ func (s *Netconf) Start() []simnet.Seg {
 	if s.Spec.Hello == "" && s.Spec.Junk == "" {
 		return nil
 	}
+	if s.Spec.HelloLate > 0 {
+		// a late hello is spoken by the harness at its time (LateHello), so that whatever the
+		// transport echoes before then is not queued behind it
+		return nil
+	}
+
+	return s.helloSegs()
+}
+
+func (s *Netconf) helloSegs() []simnet.Seg {
 	s.msgSeq++
 	b := s.Spec.Junk + s.Spec.Hello
 	if !s.Spec.NoDelim {
 		b += ncDelim + s.Spec.HelloTrailer
 	}
 
-	return []simnet.Seg{{B: []byte(b), Msg: s.msgSeq, Delay: time.Duration(s.Spec.HelloLate) * time.Microsecond}}
+	return []simnet.Seg{{B: []byte(b), Msg: s.msgSeq}}
+}
+
+// LateHello is the hello of a server that takes its time (Spec.HelloLate), nil for any other.
+func (s *Netconf) LateHello() []simnet.Seg {
+	s.mu.Lock()
+	defer s.mu.Unlock()
+	if s.Spec.HelloLate <= 0 || (s.Spec.Hello == "" && s.Spec.Junk == "") {
+		return nil
+	}
+
+	return s.helloSegs()
 }
 
 // Frame11 frames payload as RFC 6242 chunks of the given sizes.
